@@ -31,6 +31,7 @@ func c07(c *Ctx) {
 	c05R1(c, "R6/C05.R1")
 	sQuorum(c, "R6/S-QUORUM")
 	c07R7(c, "R7")
+	sConfigClone(c, "R7/S-CFGCLONE")
 }
 
 func c07R1(c *Ctx, rule string) {
